@@ -41,9 +41,13 @@ def _match(a, b, k):
         raise NotImplementedError
 
 
+_ASCII_UPPER = {c: c - 32 for c in range(ord("a"), ord("z") + 1)}
+
 collations: dict[str, Callable[[str, str, str], bool]] = {
+    # Only the ASCII letters are case-folded (RFC 4790, section 9.2.1); other
+    # characters are compared as they are.
     "i;ascii-casemap": lambda a, b, k: _match(
-        a.encode("ascii").upper(), b.encode("ascii").upper(), k
+        a.translate(_ASCII_UPPER), b.translate(_ASCII_UPPER), k
     ),
     "i;octet": lambda a, b, k: _match(a, b, k),
     # TODO(jelmer): Follow all rules as specified in
